@@ -1810,4 +1810,400 @@ theorem noPending_step {n : Node} (h : Inv n) (hrx : n.rx ≠ none) (hw : n.t.ne
     (hnp : NoPending n.t) (op : Op) : NoPending (step n op).1.t :=
   (pend_none_iff _).1 (quiet_step n hrx hw op none h.tinv ((pend_none_iff _).2 hnp)).2
 
+/-! ## when the sweeps, `accept_if` and `recv` fire -/
+
+/-- the verdict of the orphan sweep in terms of the (unique) session the message addresses -/
+theorem sweepOrphan_eval {t : Table} (ht : TInv t) {s : Sess} (hs : s ∈ t.sessions) {port sid : Nat}
+    (hf : s.isForRx port sid = true) (h : RxHdr) (now : Nat) :
+    (t.sweepOrphan port sid h now).2 = true ↔
+      ∀ i e, s.getExchForRx h = some i → s.slot i = some e → e.role.isDropped = true := by
+  unfold Table.sweepOrphan
+  rw [getForRx_mem ht hs hf now]
+  simp only
+  rw [touch_getExch]
+  cases hx : s.getExchForRx h with
+  | none => simp
+  | some i =>
+    simp only
+    rw [touch_slot]
+    cases he : s.slot i with
+    | none =>
+      simp only [true_iff]
+      intro j e hj hsj
+      cases hj
+      rw [he] at hsj; cases hsj
+    | some e =>
+      simp only
+      constructor
+      · intro hd j f hj hsj
+        cases hj
+        rw [he] at hsj; cases hsj
+        exact hd
+      · intro hall; exact hall i e rfl he
+
+theorem sweepOrphan_eval_none {t : Table} (ht : TInv t) {port sid : Nat}
+    (hn : ∀ s ∈ t.sessions, s.isForRx port sid = false) (h : RxHdr) (now : Nat) :
+    (t.sweepOrphan port sid h now).2 = true := by
+  unfold Table.sweepOrphan
+  rcases getForRx_cases t ht port sid now with ⟨s, hs, hf, _⟩ | ⟨_, hg⟩
+  · rw [hn s hs] at hf; cases hf
+  · rw [hg]
+
+/-- the accept sweep fires on the accept-pending owner of the message once the deadline has passed -/
+theorem sweepAccept_fires {t : Table} (ht : TInv t) {s : Sess} (hs : s ∈ t.sessions) {port sid : Nat}
+    (hf : s.isForRx port sid = true) {h : RxHdr} {i : Nat} {e : Exch} (he : s.slot i = some e)
+    (hfor : e.isForRx h = true) (hrp : e.role = .rp) {now : Nat}
+    (hto : e.mrp.hasRxTimedOut Consts.acceptTimeoutMs now = true) :
+    (t.sweepAccept port sid h now).2 = true := by
+  unfold Table.sweepAccept
+  rw [getForRx_mem ht hs hf now]
+  simp only
+  rw [touch_getExch, getExchForRx_of_slot s (ht.uniq s hs) h i e he hfor]
+  simp only
+  rw [touch_slot, he]
+  simp [hrp, hto]
+
+/-- … and does nothing before -/
+theorem sweepAccept_waits {t : Table} (ht : TInv t) {s : Sess} (hs : s ∈ t.sessions) {port sid : Nat}
+    (hf : s.isForRx port sid = true) {h : RxHdr} {i : Nat} {e : Exch} (he : s.slot i = some e)
+    (hfor : e.isForRx h = true) {now : Nat}
+    (hto : e.role ≠ .rp ∨ e.mrp.hasRxTimedOut Consts.acceptTimeoutMs now = false) :
+    (t.sweepAccept port sid h now).2 = false := by
+  unfold Table.sweepAccept
+  rw [getForRx_mem ht hs hf now]
+  simp only
+  rw [touch_getExch, getExchForRx_of_slot s (ht.uniq s hs) h i e he hfor]
+  simp only
+  rw [touch_slot, he]
+  rcases hto with h1 | h1 <;> simp [h1]
+
+/-- `accept_if` succeeds on the accept-pending owner -/
+theorem accept_fires {n : Node} (h : Inv n) {r : Held} (hrx : n.rx = some r) {s : Sess} (hs : s ∈ n.t.sessions)
+    (hf : s.isForRx r.m.port r.m.sid = true) {i : Nat} {e : Exch} (he : s.slot i = some e)
+    (hfor : e.isForRx r.m.hdr = true) (hrp : e.role = .rp) : (accept n).2 = .accepted s.uid i := by
+  unfold accept
+  rw [hrx]
+  simp only
+  rw [getForRx_mem h.tinv hs hf n.now]
+  simp only
+  rw [touch_getExch, getExchForRx_of_slot s (h.tinv.uniq s hs) _ i e he hfor]
+  simp only
+  obtain ⟨ht1, _, hm1⟩ := get_inv h.tinv h.pend hs n.now
+  have : ((n.t.setSess (touch s n.now)).accept (touch s n.now).uid i n.now).2 = true := by
+    unfold Table.accept
+    rw [get_mem ht1.uidN hm1]
+    simp only
+    rw [touch_slot, touch_slot, he]
+    simp [hrp]
+  rw [this]
+  rfl
+
+/-- `recv` of the live owner delivers the waiting message and empties the slot -/
+theorem recv_fires {n : Node} (h : Inv n) {r : Held} (hrx : n.rx = some r) {s : Sess} (hs : s ∈ n.t.sessions)
+    (hf : s.isForRx r.m.port r.m.sid = true) {i : Nat} {e : Exch} (he : s.slot i = some e)
+    (hfor : e.isForRx r.m.hdr = true) (hown : RoleSt.isOwned e.role = true)
+    (hnr : e.mrp.isRetransPending = false) :
+    (recv n s.uid i).2 = .delivered s.uid i r.m ∧ (recv n s.uid i).1.rx = none := by
+  unfold recv
+  rw [get_mem h.tinv.uidN hs]
+  simp only
+  rw [touch_slot, he]
+  simp only [hown, hnr, hrx]
+  have : recvMatch (touch s n.now) e r.m = true := by
+    simp only [recvMatch, Bool.and_eq_true]
+    exact ⟨by rw [(touch_same s n.now).isForRx]; exact hf, hfor⟩
+  simp [this]
+
+/-- after the owner dropped its exchange the orphan sweep fires -/
+theorem orphan_after_drop {n : Node} (h : Inv n) {r : Held} (hrx : n.rx = some r) {s : Sess} (hs : s ∈ n.t.sessions)
+    (hf : s.isForRx r.m.port r.m.sid = true) {i : Nat} {e : Exch} (he : s.slot i = some e)
+    (hfor : e.isForRx r.m.hdr = true) (hown : RoleSt.isOwned e.role = true) :
+    (sweepOrphan (dropEx n s.uid i).1).2 = .swept true ∧ (sweepOrphan (dropEx n s.uid i).1).1.rx = none := by
+  have hsess : n.t.sess s.uid = some s := (sess_eq_some_iff _ h.tinv.uidN _ _).2 ⟨hs, rfl⟩
+  have hd : (dropEx n s.uid i).1 = { n with t := (n.t.dropExchange s.uid i n.now).1 } := by
+    unfold dropEx
+    rw [hsess]
+    simp only [Option.bind_some, he, hown]
+    rfl
+  obtain ⟨ht1, hp1, hm1⟩ := get_inv h.tinv h.pend hs n.now
+  have he1 : (touch s n.now).slot i = some e := he
+  obtain ⟨k1, k2, k3⟩ := removeExch_shape (touch s n.now) i e he1
+  have htab : (n.t.dropExchange s.uid i n.now).1 =
+      (n.t.setSess (touch s n.now)).setSess ((touch s n.now).removeExch i).1 := by
+    unfold Table.dropExchange
+    rw [get_mem h.tinv.uidN hs]
+  have ht2 : TInv (n.t.dropExchange s.uid i n.now).1 := (quiet_dropExchange n.t s.uid i n.now n.rx h.tinv h.pend).1
+  have hy : ((touch s n.now).removeExch i).1 ∈ (n.t.dropExchange s.uid i n.now).1.sessions := by
+    rw [htab]; exact mem_setSess_self ht1.uidN hm1 k1.uid
+  have hyf : ((touch s n.now).removeExch i).1.isForRx r.m.port r.m.sid = true := by
+    rw [k1.isForRx, (touch_same s n.now).isForRx]; exact hf
+  have hfire : ((n.t.dropExchange s.uid i n.now).1.sweepOrphan r.m.port r.m.sid r.m.hdr n.now).2 = true := by
+    rw [sweepOrphan_eval ht2 hy hyf]
+    intro j f hj hsj
+    obtain ⟨f', hsj', hff⟩ := getExchForRx_slot _ _ _ hj
+    rw [hsj] at hsj'
+    cases hsj'
+    by_cases hji : j = i
+    · subst hji
+      rw [k3 j] at hsj
+      simp only [↓reduceIte] at hsj
+      split at hsj
+      · simp only [Option.some.injEq] at hsj
+        subst hsj
+        cases e.role <;> rfl
+      · cases hsj
+    · exfalso
+      rw [k3 j] at hsj
+      simp only [Ne.symm hji, ↓reduceIte] at hsj
+      exact hji (h.tinv.uniq s hs j i f e hsj he
+        (by simp only [Exch.isForRx, Bool.and_eq_true, beq_iff_eq] at hff hfor; rw [hff.1, hfor.1])
+        (by simp only [Exch.isForRx, Bool.and_eq_true, beq_iff_eq] at hff hfor; rw [← hff.2, ← hfor.2]))
+  rw [hd]
+  unfold sweepOrphan
+  simp only [hrx, hfire]
+  simp
+
+/-! ## the dropped-exchange closer: what it finds and what it does -/
+
+/-- the exchange at (session uid, slot i) is in a dropped state -/
+def DroppedAt (t : Table) (uid i : Nat) : Prop :=
+  ∃ s ∈ t.sessions, s.uid = uid ∧ ∃ e, s.slot i = some e ∧ e.role.isDropped = true
+
+theorem findDropped_go_some (want : Bool) : ∀ (es : List (Option Exch)) (k i : Nat),
+    findDropped.go want es k = some i →
+    k ≤ i ∧ ∃ e, es[i - k]? = some (some e) ∧ e.role.isDropped = true ∧ e.mrp.isRetransPending = want := by
+  intro es
+  induction es with
+  | nil => intro k i h; simp [findDropped.go] at h
+  | cons y ys ih =>
+    intro k i h
+    cases y with
+    | none =>
+      simp only [findDropped.go] at h
+      obtain ⟨h1, e, h2, h3⟩ := ih (k + 1) i h
+      refine ⟨by omega, e, ?_, h3⟩
+      have : i - k = (i - (k + 1)) + 1 := by omega
+      rw [this, List.getElem?_cons_succ]; exact h2
+    | some e0 =>
+      simp only [findDropped.go] at h
+      split at h
+      · rename_i hc
+        simp only [Option.some.injEq] at h
+        subst h
+        simp only [Bool.and_eq_true, beq_iff_eq] at hc
+        exact ⟨Nat.le_refl _, e0, by simp, hc.1, hc.2⟩
+      · obtain ⟨h1, e, h2, h3⟩ := ih (k + 1) i h
+        refine ⟨by omega, e, ?_, h3⟩
+        have : i - k = (i - (k + 1)) + 1 := by omega
+        rw [this, List.getElem?_cons_succ]; exact h2
+
+/-- `Sessions::get_exch(pred)` answers a dropped exchange of the wanted kind -/
+theorem findDropped_some (want : Bool) : ∀ (l : List Sess) (uid i : Nat), findDropped want l = some (uid, i) →
+    ∃ s ∈ l, s.uid = uid ∧ ∃ e, s.slot i = some e ∧ e.role.isDropped = true ∧ e.mrp.isRetransPending = want := by
+  intro l
+  induction l with
+  | nil => intro uid i h; simp [findDropped] at h
+  | cons x xs ih =>
+    intro uid i h
+    simp only [findDropped] at h
+    split at h
+    · rename_i j hj
+      simp only [Option.some.injEq, Prod.mk.injEq] at h
+      obtain ⟨h1, h2⟩ := h
+      subst h1; subst h2
+      obtain ⟨_, e, he, hd, hr⟩ := findDropped_go_some want x.exchs 0 j hj
+      exact ⟨x, List.mem_cons_self .., rfl, e, (slot_eq_some x j e).2 (by simpa using he), hd, hr⟩
+    · obtain ⟨s, hs, rest⟩ := ih uid i h
+      exact ⟨s, List.mem_cons_of_mem _ hs, rest⟩
+
+theorem findDropped_go_none (want : Bool) : ∀ (es : List (Option Exch)) (k : Nat), findDropped.go want es k = none →
+    ∀ (j : Nat) (e : Exch), es[j]? = some (some e) → ¬ (e.role.isDropped = true ∧ e.mrp.isRetransPending = want) := by
+  intro es
+  induction es with
+  | nil => intro k _ j e hj; simp at hj
+  | cons y ys ihy =>
+    intro k hk j e hj ⟨h1, h2⟩
+    cases y with
+    | none =>
+      simp only [findDropped.go] at hk
+      cases j with
+      | zero => simp at hj
+      | succ j => rw [List.getElem?_cons_succ] at hj; exact ihy (k + 1) hk j e hj ⟨h1, h2⟩
+    | some e0 =>
+      simp only [findDropped.go] at hk
+      split at hk
+      · simp at hk
+      · rename_i hnot
+        cases j with
+        | zero =>
+          simp only [List.getElem?_cons_zero, Option.some.injEq] at hj
+          subst hj
+          simp [h1, h2] at hnot
+        | succ j => rw [List.getElem?_cons_succ] at hj; exact ihy (k + 1) hk j e hj ⟨h1, h2⟩
+
+/-- `get_exch(pred)` misses nothing -/
+theorem findDropped_none (want : Bool) : ∀ (l : List Sess), findDropped want l = none →
+    ∀ s ∈ l, ∀ i e, s.slot i = some e → ¬ (e.role.isDropped = true ∧ e.mrp.isRetransPending = want) := by
+  intro l
+  induction l with
+  | nil => intro _ s hs; simp at hs
+  | cons x xs ih =>
+    intro hf s hs i e hsl hd
+    simp only [findDropped] at hf
+    split at hf
+    · simp at hf
+    · rename_i hx
+      rcases List.mem_cons.1 hs with h1 | h1
+      · subst h1
+        exact findDropped_go_none want s.exchs 0 hx i e ((slot_eq_some s i e).1 hsl) hd
+      · exact ih hf s h1 i e hsl hd
+
+theorem preSend_unreliable_ok (s : Sess) (i : Nat) (e : Exch) (hs : s.slot i = some e) (ha sai : Option Nat) :
+    ∃ o, (s.preSend (some i) false ha sai).2 = .ok o := by
+  unfold Sess.preSend
+  simp only [hs]
+  unfold Mrp.preSend
+  simp
+
+theorem get_tinv {t : Table} (ht : TInv t) {s : Sess} (hs : s ∈ t.sessions) (now : Nat) :
+    TInv (t.setSess (touch s now)) ∧ touch s now ∈ (t.setSess (touch s now)).sessions :=
+  ⟨tinv_setSess ht hs (touch_same s now) (ht.nExch s hs) (touch_uniq now (ht.uniq s hs)),
+   mem_setSess_self ht.uidN hs rfl⟩
+
+/-- sessions after `get` + writing back an update `y` of the touched session -/
+theorem mem_get_setSess {t : Table} (ht : TInv t) {s y : Sess} (hs : s ∈ t.sessions) (now : Nat)
+    (hu : y.uid = s.uid) (z : Sess) :
+    z ∈ ((t.setSess (touch s now)).setSess y).sessions ↔ z = y ∨ (z ∈ t.sessions ∧ z.uid ≠ s.uid) := by
+  obtain ⟨ht1, hm1⟩ := get_tinv ht hs now
+  rw [mem_setSess _ ht1.uidN y ⟨_, hm1, hu.symm⟩, mem_setSess t ht.uidN (touch s now) ⟨s, hs, rfl⟩]
+  constructor
+  · rintro (h | ⟨h | ⟨h1, h2⟩, h3⟩)
+    · exact Or.inl h
+    · rw [h] at h3; exact absurd hu.symm h3
+    · exact Or.inr ⟨h1, h2⟩
+  · rintro (h | ⟨h1, h2⟩)
+    · exact Or.inl h
+    · exact Or.inr ⟨Or.inr ⟨h1, h2⟩, by rw [hu]; exact h2⟩
+
+/-- **What one run of the closer does** (`handle_dropped_exchange`), for every well-shaped table:
+* it answers `nothing` only if no exchange of the table is in a dropped state;
+* `closedSession uid`: some dropped exchange of that session still had a retransmission pending; the
+  session is gone afterwards; no other session changed its dropped exchanges;
+* `closedExchange uid i _ ack`: that exchange was dropped without a pending retransmission; a
+  standalone ack was written iff one was owed; the slot is free afterwards; nothing else became dropped. -/
+def CloserSpec (t t' : Table) : SweepOut → Prop
+  | .nothing => ∀ uid i, ¬ DroppedAt t uid i
+  | .closedSession uid _ _ =>
+    (∃ s ∈ t.sessions, s.uid = uid ∧ ∃ i e, s.slot i = some e ∧ e.role.isDropped = true ∧ e.mrp.isRetransPending = true) ∧
+    t'.sess uid = none ∧ ∀ u j, DroppedAt t' u j → DroppedAt t u j ∧ u ≠ uid
+  | .closedExchange uid i _ ack =>
+    (∃ s ∈ t.sessions, s.uid = uid ∧ ∃ e, s.slot i = some e ∧ e.role.isDropped = true ∧
+        e.mrp.isRetransPending = false ∧ ack.isSome = e.mrp.isAckPending) ∧
+    ¬ DroppedAt t' uid i ∧ ∀ u j, DroppedAt t' u j → DroppedAt t u j
+
+theorem closer_effect {t : Table} (ht : TInv t) (now : Nat) :
+    CloserSpec t (t.sweepDropped now).1 (t.sweepDropped now).2 := by
+  unfold Table.sweepDropped
+  cases h1 : findDropped true t.sessions with
+  | some p =>
+    obtain ⟨uid, i0⟩ := p
+    obtain ⟨s, hs, hu, e, he, hd, hr⟩ := findDropped_some true _ _ _ h1
+    subst hu
+    simp only
+    rw [get_mem ht.uidN hs]
+    simp only
+    have e2 : (t.setSess (touch s now)).nextExchId =
+        ((t.setSess (touch s now)).nextExchId.1, (t.setSess (touch s now)).nextExchId.2) := rfl
+    rw [e2]
+    simp only
+    obtain ⟨ht1, hm1⟩ := get_tinv ht hs now
+    have ht2 := tinv_nextExchId ht1
+    have hsess : (t.setSess (touch s now)).nextExchId.1.sess s.uid = some (touch s now) :=
+      (sess_eq_some_iff _ ht2.uidN _ _).2 ⟨hm1, rfl⟩
+    rw [hsess]
+    simp only
+    have e3 : (t.setSess (touch s now)).nextExchId.1.remove s.uid =
+        (((t.setSess (touch s now)).nextExchId.1.remove s.uid).1, ((t.setSess (touch s now)).nextExchId.1.remove s.uid).2) := rfl
+    rw [e3]
+    simp only [CloserSpec]
+    refine ⟨⟨s, hs, rfl, i0, e, he, hd, hr⟩, remove_sess_none _ ht2.uidN _, ?_⟩
+    intro u j ⟨z, hz, hzu, f, hf, hfd⟩
+    obtain ⟨hz1, hne⟩ := (mem_remove _ ht2.uidN s.uid z).1 hz
+    have hz1' : z ∈ (t.setSess (touch s now)).sessions := hz1
+    rcases (mem_setSess t ht.uidN (touch s now) ⟨s, hs, rfl⟩ z).1 hz1' with hzt | ⟨hzt, _⟩
+    · rw [hzt] at hne; exact absurd rfl hne
+    · exact ⟨⟨z, hzt, hzu, f, hf, hfd⟩, by rw [← hzu]; exact hne⟩
+  | none =>
+    simp only
+    cases h2 : findDropped false t.sessions with
+    | none =>
+      simp only [CloserSpec]
+      intro uid i ⟨z, hz, _, f, hf, hfd⟩
+      cases hr : f.mrp.isRetransPending with
+      | true => exact findDropped_none true _ h1 z hz i f hf ⟨hfd, hr⟩
+      | false => exact findDropped_none false _ h2 z hz i f hf ⟨hfd, hr⟩
+    | some p =>
+      obtain ⟨uid, i⟩ := p
+      obtain ⟨s, hs, hu, e, he, hd, hr⟩ := findDropped_some false _ _ _ h2
+      subst hu
+      simp only
+      rw [get_mem ht.uidN hs]
+      simp only
+      have he1 : (touch s now).slot i = some e := he
+      rw [he1]
+      simp only
+      have hlt := slot_lt _ i e he1
+      -- the shared part: the table after writing back an update `y` of the session with slot `i` freed
+      have fin : ∀ (y : Sess), y.uid = s.uid → y.slot i = none → (∀ j, j ≠ i → y.slot j = s.slot j) →
+          ¬ DroppedAt ((t.setSess (touch s now)).setSess y) s.uid i ∧
+          ∀ u j, DroppedAt ((t.setSess (touch s now)).setSess y) u j → DroppedAt t u j := by
+        intro y hyu hyi hyj
+        have hmem := mem_get_setSess ht hs now hyu
+        constructor
+        · intro ⟨z, hz, hzu, f, hf, _⟩
+          rcases (hmem z).1 hz with hzy | ⟨_, hne⟩
+          · rw [hzy, hyi] at hf; cases hf
+          · exact hne hzu
+        · intro u j ⟨z, hz, hzu, f, hf, hfd⟩
+          rcases (hmem z).1 hz with hzy | ⟨hzt, _⟩
+          · subst hzy
+            by_cases hji : j = i
+            · rw [hji, hyi] at hf; cases hf
+            · rw [hyj j hji] at hf
+              exact ⟨s, hs, by rw [← hzu, hyu], f, hf, hfd⟩
+          · exact ⟨z, hzt, hzu, f, hf, hfd⟩
+      split
+      · rename_i hack
+        obtain ⟨o, ho⟩ := preSend_unreliable_ok (touch s now) i e he1 none none
+        obtain ⟨m, k1, k2, k3⟩ := preSend_shape (touch s now) i e he1 false none none
+        rw [ho]
+        simp only [CloserSpec]
+        refine ⟨⟨s, hs, rfl, e, he, hd, hr, by simp [hack]⟩, ?_⟩
+        apply fin
+        · exact k1.uid
+        · rw [slot_set]; simp [k2, hlt]
+        · intro j hj
+          rw [slot_set]
+          simp only [Ne.symm hj, ↓reduceIte]
+          rw [k3 j]
+          simp [Ne.symm hj, touch_slot]
+      · rename_i hack
+        simp only [CloserSpec]
+        refine ⟨⟨s, hs, rfl, e, he, hd, hr, by simp [hack]⟩, ?_⟩
+        apply fin
+        · rfl
+        · rw [slot_set]; simp [hlt]
+        · intro j hj
+          rw [slot_set]
+          simp [Ne.symm hj, touch_slot]
+
+/-- **The closer acts whenever a dropped exchange exists** (the direction the property needs) -/
+theorem closer_acts {t : Table} (ht : TInv t) (now : Nat) (h : ∃ uid i, DroppedAt t uid i) :
+    (t.sweepDropped now).2 ≠ .nothing := by
+  intro hn
+  have := closer_effect ht now
+  rw [hn] at this
+  obtain ⟨uid, i, hd⟩ := h
+  exact this uid i hd
+
 end RxPath
